@@ -529,3 +529,89 @@ class C08(Base):
             out.append(Case("o.m4.transform", singular_mat(rng, 3) + [rng.small() for _ in range(15)] + rng.distinct(3) + rng.distinct(3), family="oracle-singular"))
             out.append(Case("o.m3.transform", rand_mat(rng, 3, "small") + rand_mat(rng, 3, "small") + rng.distinct(3) + rng.distinct(3), family="oracle"))
         return out
+
+
+def valid_persp(rng):
+    """(fovy, aspect, near, far) satisfying every precondition; fovy in (0, ~3)"""
+    fovy = F(rng.rng(1, 300), 100)
+    aspect = rng.choice([F(4, 3), F(16, 9), F(1), F(rng.rng(1, 50), 10)])
+    near = F(rng.rng(1, 100), 10)
+    far = near + F(rng.rng(1, 1000), 10)
+    return [fovy, aspect, near, far]
+
+
+def valid_planar(rng):
+    """(fovy, aspect, height, near, far) valid for planar under the oracle interpretation of tan:
+    validity of the focal-point assertion depends on tan(fovy/2), so cases are filtered by outcome"""
+    fovy = F(rng.rng(-300, 300), 100)
+    aspect = rng.choice([F(4, 3), F(16, 9), F(1)])
+    height = F(rng.rng(1, 100), 10)
+    near = F(rng.rng(1, 100), 10)
+    far = near + F(rng.rng(1, 1000), 10)
+    return [fovy, aspect, height, near, far]
+
+
+@prop("C10")
+class C10(Base):
+    title = "projections map the view volume onto the clip cube and reject bad parameters"
+    design_ref = "§6 C10"
+    ops = ["proj.ortho", "proj.ortho_s", "proj.frustum", "proj.frustum_s", "proj.perspective",
+           "proj.perspective_s", "proj.perspective_deg", "proj.planar", "proj.planar_s", "proj.to_perspective"]
+    oracle_ops = ["o.proj.ortho", "o.proj.frustum", "o.proj.perspective", "o.proj.planar"]
+
+    def n_random(self, tier):
+        return 40 if tier == "quick" else 1500
+
+    def _reject(self, rng):
+        """tuples violating exactly one precondition: (op, args)"""
+        out = []
+        f, a, n, fr = valid_persp(rng)
+        PI = F(884279719003555, 140737488355328) / 2
+        tiny = F(1, 2 ** 60)
+        for op in ("proj.perspective", "proj.perspective_s"):
+            out += [(op, [F(0), a, n, fr]), (op, [-f, a, n, fr]), (op, [PI, a, n, fr]), (op, [PI + 1, a, n, fr]),
+                    (op, [f, F(0), n, fr]), (op, [f, tiny, n, fr]), (op, [f, a, F(0), fr]), (op, [f, a, -n, fr]),
+                    (op, [f, a, n, F(0)]), (op, [f, a, n, -fr]), (op, [f, a, n, n]), (op, [f, a, n, n + tiny])]
+        l, r, b, t = F(-2), F(3), F(-1), F(5, 2)
+        for op in ("proj.frustum", "proj.frustum_s"):
+            out += [(op, [r, l, b, t, n, fr]), (op, [l, r, t, b, n, fr]), (op, [l, r, b, t, fr, n])]
+        pf, pa, ph, pn, pfar = valid_planar(rng)
+        for op in ("proj.planar", "proj.planar_s"):
+            out += [(op, [PI, pa, ph, pn, pfar]), (op, [-PI, pa, ph, pn, pfar]), (op, [PI + 2, pa, ph, pn, pfar]),
+                    (op, [pf, pa, -ph, pn, pfar]), (op, [pf, F(0), ph, pn, pfar]), (op, [pf, pa, ph, pn, pn])]
+        return out
+
+    def families(self, rng, tier):
+        out = []
+        reps = 8 if tier == "quick" else 300
+        for _ in range(reps):
+            vp = valid_persp(rng)
+            for op in ("proj.perspective", "proj.perspective_s", "proj.to_perspective"):
+                out.append(Case(op, vp, family="valid"))
+            out.append(Case("proj.perspective_deg", [F(rng.rng(1, 179))] + vp[1:], family="valid"))
+            box = [F(-2), F(3), F(-1), F(5, 2), vp[2], vp[3]]
+            for op in ("proj.ortho", "proj.ortho_s", "proj.frustum", "proj.frustum_s"):
+                out.append(Case(op, box, family="valid"))
+                out.append(Case(op, [rng.rat() for _ in range(4)] + [vp[2], vp[3]], family="semi-valid"))
+            for op in ("proj.planar", "proj.planar_s"):
+                out.append(Case(op, valid_planar(rng), family="valid?"))
+            for op, args in self._reject(rng):
+                out.append(Case(op, args, family="reject-one-precondition"))
+        # accepted boundary: left = right (division by zero on both sides), near = far for frustum
+        out.append(Case("proj.ortho", [F(1), F(1), F(0), F(2), F(1), F(3)], family="degenerate-accepted"))
+        out.append(Case("proj.frustum", [F(1), F(1), F(0), F(2), F(1), F(3)], family="degenerate-accepted"))
+        out.append(Case("proj.frustum", [F(0), F(1), F(0), F(2), F(3), F(3)], family="degenerate-accepted"))
+        return out
+
+    def oracle_cases(self, rng, tier):
+        out = []
+        k = 25 if tier == "quick" else 1200
+        for _ in range(k):
+            vp = valid_persp(rng)
+            out.append(Case("o.proj.ortho", [rng.rat() for _ in range(6)], family="oracle"))
+            out.append(Case("o.proj.frustum", sorted([rng.rat(), rng.rat()]) + sorted([rng.rat(), rng.rat()]) + [vp[2], vp[3]], family="oracle"))
+            out.append(Case("o.proj.perspective", vp, family="oracle"))
+            out.append(Case("o.proj.planar", valid_planar(rng), family="oracle"))
+            for op, args in self._reject(rng):
+                out.append(Case(op, args, family="oracle-reject", expect="panic"))
+        return out
